@@ -14,7 +14,11 @@ RULE = (
     "with IndxIO.save to a real file and loaded back. Oracle: same common (type int), same key set (tuples of "
     "int), equal uint32 arrays, reported row-id dtype uint32, and the rebuilt iindex equals the saved one and "
     "validates iff the saved one does. Non-trivial = at least 2 entries and (common's width class differs from "
-    "the coordinates' class, or an empty row-id array, or arity >= 3); distinct by file content."
+    "the coordinates' class, or an empty row-id array, or arity >= 3); distinct by file content. machine_indexes: the "
+    "C06 state machine; after every step every live non-negative index (reached by appends, updates, filters, "
+    "slices, re-indexing, collapsing, stacking, set updates) is saved and loaded back with the same comparison; "
+    "non-trivial = a history that round-trips an index produced by an operation (not only the initial ones). "
+    "fuzz: an Atheris campaign over structured entries (2 000 executions per shard quick, 250 000 thorough)."
 )
 ASSUMPTIONS = [
     "coordinates and common are unsigned and < 2^63 (class docstring and loader comment)",
@@ -113,7 +117,24 @@ def fuzz_runner(sub, tier, seed, shard, nshards, rec):
                          {"quick": 2000, "thorough": 250000}, asan=False)
 
 
+MEX = {"quick": 1200, "thorough": 60000}
+MSTEPS = {"quick": 20, "thorough": 30}
+
+
+def machine_runner(sub, tier, seed, shard, nshards, rec):
+    from .. import machine as M
+
+    M.run_machine(sub, tier, seed, shard, nshards, rec, "C10", MEX, MSTEPS)
+
+
+def machine_replay(case, rec):
+    from .. import machine as M
+
+    M.replay(case, rec)
+
+
 SUBS = [
+    Sub("machine_indexes", machine_replay, runner=machine_runner, examples=MEX, weight=4),
     Sub("fuzz", check, runner=fuzz_runner, shards={"quick": 2, "thorough": 8}, weight=9),
     Sub("roundtrip", check, strategy=lambda tier: G.indx_cases(40 if tier == "quick" else 120, 50),
         examples={"quick": 5000, "thorough": 200000}),
